@@ -159,14 +159,27 @@ Fixpoint cofactor_rec (fuel : nat) (u : Z) (ord : list nat)
       end
   end.
 
-Definition cofactor (u : Z) (byname : bool) (values : list (nat * bool))
-  : MS Z :=
+(** the decorated worker [_cofactor_vars(u, values)]: keys are variable names *)
+Definition cofactor_names (u : Z) (values : list (nat * bool)) : MS Z :=
   try_to_reorder (
-    lv <- map_to_level_dict byname values ;;
+    lv <- map_to_level_dict true values ;;
     s <- get ;;
     ensure EValue (mem u s) ;;;
     r <- cofactor_rec (S (S (nvars s))) u (sorted_levels (dom lv)) lv ∅ ;;
     ret (fst r)).
+
+(** the public [cofactor(u, values)] is not decorated: it first turns its keys
+    into variable NAMES (levels refer to the order at the time of the call) and
+    then calls the decorated worker, which may run twice.  For keys that are
+    names this prelude is the identity on a dict (it can only raise, for an
+    unknown name, what the worker raises at the same point with the same
+    state), so the model calls the worker directly. *)
+Definition cofactor (u : Z) (byname : bool) (values : list (nat * bool))
+  : MS Z :=
+  if byname then cofactor_names u values else
+  lv <- map_to_level_dict false values ;;
+  nv <- mapM (fun '(l, a) => v <- var_at_level l ;; ret (v, a)) (map_to_list lv) ;;
+  cofactor_names u nv.
 
 (** ** [quantify] *)
 Fixpoint quantify_rec (fuel : nat) (u : Z) (ord : list nat)
@@ -200,13 +213,23 @@ Fixpoint quantify_rec (fuel : nat) (u : Z) (ord : list nat)
       end
   end.
 
-Definition quantify (u : Z) (byname : bool) (qvars : list nat)
-    (forall_ : bool) : MS Z :=
+(** the decorated worker [_quantify_vars(u, qvars, forall)]: variable names *)
+Definition quantify_names (u : Z) (qvars : list nat) (forall_ : bool) : MS Z :=
   try_to_reorder (
-    q <- map_to_level_set byname qvars ;;
+    q <- map_to_level_set true qvars ;;
     s <- get ;;
     r <- quantify_rec (S (S (nvars s))) u (sorted_levels q) q forall_ ∅ ;;
     ret (fst r)).
+
+(** the public [quantify]: reads the iterable, turns levels into names (the
+    order at the time of the call), calls the decorated worker (see
+    [cofactor]) *)
+Definition quantify (u : Z) (byname : bool) (qvars : list nat)
+    (forall_ : bool) : MS Z :=
+  if byname then quantify_names u qvars forall_ else
+  q <- map_to_level_set false qvars ;;
+  names <- mapM var_at_level (elements q) ;;
+  quantify_names u names forall_.
 
 (** ** [compose] *)
 (** [_top_cofactor] with a possibly negative level argument *)
